@@ -286,6 +286,78 @@ def main():
     return exit_code
 
 
+_CRUMB = None
+
+
+def _crumb(stage, case):
+    """Breadcrumb for the supervisor: which case the process was working on, should it die (a segfault or abort in a
+    compiled extension of the code under test must end as a verdict with that case as the failing input, not as a dead check)."""
+    global _CRUMB
+    path = os.environ.get("VERIF_CRUMB")
+    if not path:
+        return
+    try:
+        if _CRUMB is None:
+            _CRUMB = open(path, "w")
+        _CRUMB.seek(0)
+        _CRUMB.truncate()
+        json.dump({"stage": stage, "case": strip_private(case)}, _CRUMB, default=str)
+        _CRUMB.flush()
+    except Exception:
+        pass
+
+
+def supervise():
+    """Run the check in a child process; if the child dies abnormally, report the case it was working on."""
+    prop = sys.argv[1].upper() if len(sys.argv) > 1 else "?"
+    tier = sys.argv[2] if len(sys.argv) > 2 and sys.argv[2] in ("quick", "thorough") else "quick"
+    seed = int(os.environ.get("VERIF_SEED", "0"))
+    os.makedirs(paths.BUILD, exist_ok=True)
+    crumb = os.path.join(paths.BUILD, f"crumb-{prop}-{os.getpid()}.json")
+    env = dict(os.environ, VERIF_SUPERVISED="1", VERIF_CRUMB=crumb)
+    t0 = time.time()
+    try:
+        rc = subprocess.call([sys.executable, os.path.abspath(__file__)] + sys.argv[1:], env=env)
+        if rc in (0, 1, 2):
+            return rc
+        info = None
+        try:
+            info = json.load(open(crumb))
+        except Exception:
+            pass
+        os.makedirs(paths.REPLAYS, exist_ok=True)
+        rp = os.path.join(paths.REPLAYS, f"{prop}-{tier}-seed{seed}-died.json")
+        how = f"signal {-rc}" if rc < 0 else f"exit status {rc}"
+        with open(rp, "w") as f:
+            json.dump({"property": prop, "seed": seed, "tier": tier,
+                       "kind": "failing-input" if info else "no-failing-input-found",
+                       "key": f"{prop}/check-process-died",
+                       "message": f"the process running the code under test died ({how})"
+                                  + (f" during {info['stage']} of the case below" if info else " before any case was run"),
+                       "cases": [info["case"]] if info else [], "broken": []}, f, indent=1, default=str)
+        print(f"  the process running the code under test died ({how})" + (f" in {info['stage']} of case kind={info['case'].get('kind')}" if info else ""))
+        print(f"VIOLATION property={prop} replay={rp}" + ("" if info else " no-failing-input-found"))
+        if len(sys.argv) > 2 and sys.argv[2] != "--replay":
+            try:
+                meta = plugin_meta(prop)
+                os.makedirs(paths.EVIDENCE, exist_ok=True)
+                with open(os.path.join(paths.EVIDENCE, prop + ".json"), "w") as f:
+                    json.dump({"property_id": prop, "tier": tier, "seed": seed, "level": "proof",
+                               "coverage": {"obligations": 1, "discharged": 0, "checker_cmd": "(run aborted)", "trusted_base": GLOBAL_TRUSTED,
+                                            "evaluations": 1 if info else 0, "distinct_nontrivial": 0, "rule": meta.get("RULE", ""),
+                                            "samples": [info["case"]] if info else ["(none: the process died before the first case)"],
+                                            "broken": [{"kind": "process-died", "name": prop, "detail": how}]},
+                               "wall_s": round(time.time() - t0, 2), "violations": 1}, f, indent=1, default=str)
+            except Exception:
+                pass
+        return 1
+    finally:
+        try:
+            os.remove(crumb)
+        except OSError:
+            pass
+
+
 def strip_private(case):
     return {k: v for k, v in case.items() if not k.startswith("_")}
 
@@ -302,6 +374,7 @@ def evaluate(run, plugin, cases, driver_ok=True, oracle_only=False):
         if oracle_only or not c.get("ops"):
             impl_outs.append(None)
             continue
+        _crumb("run_impl", c)
         try:
             out = plugin.run_impl(c)
         except Exception as e:  # noqa: BLE001
@@ -342,6 +415,7 @@ def evaluate(run, plugin, cases, driver_ok=True, oracle_only=False):
                     "kind": "correspondence", "name": c.get("kind", "?"), "case": c, "first_diff_op": k,
                     "op": c["ops"][k] if k < len(c["ops"]) else None,
                     "impl": io[k] if k < len(io) else None, "model": lo[k] if k < len(lo) else None})
+        _crumb("oracle", c)
         try:
             viol = plugin.oracle(c) if hasattr(plugin, "oracle") else []
             res["n_oracle"] += 1
@@ -375,7 +449,7 @@ def evaluate(run, plugin, cases, driver_ok=True, oracle_only=False):
 
 if __name__ == "__main__":
     try:
-        sys.exit(main())
+        sys.exit(main() if os.environ.get("VERIF_SUPERVISED") == "1" else supervise())
     except subprocess.TimeoutExpired as e:
         print("TIMEOUT", e)
         sys.exit(2)
